@@ -77,6 +77,38 @@ pub fn f2() -> Family {
     }
 }
 
+/// F2 restricted to a set of kinds (both pieces drawn from `kinds`).
+pub fn f2k(kinds: &'static [usize], label: &str) -> Family {
+    let mut pairs = Vec::new();
+    for a in 0..64usize {
+        for b in (a + 1)..64 {
+            pairs.push((a, b));
+        }
+    }
+    let nk = kinds.len() as u64;
+    let n = pairs.len() as u64 * nk * nk * 2;
+    Family {
+        name: format!("F2k (every board with exactly 2 pieces of kinds {}: C(64,2) square pairs x {}^2 kinds x 2 sides)", label, nk),
+        n,
+        how: 0,
+        setups: None,
+        decode: Box::new(move |idx| {
+            let side = idx % 2 == 0;
+            let k2 = kinds[((idx / 2) % nk) as usize];
+            let k1 = kinds[((idx / (2 * nk)) % nk) as usize];
+            let (s1, s2) = pairs[(idx / (2 * nk * nk)) as usize];
+            let mut b = [rm::EMPTY; 64];
+            b[s1] = kind_cell(k1);
+            b[s2] = kind_cell(k2);
+            if legal(&b) {
+                Some((b, side))
+            } else {
+                None
+            }
+        }),
+    }
+}
+
 /// All square triples whose bounding box fits a 3x3 window whose top-left corner (file, row) is in `anchors`
 /// (None = every one of the 36 windows).  Each triple appears once.
 pub fn window_triples(anchors: Option<&[(usize, usize)]>) -> Vec<(usize, usize, usize)> {
@@ -311,12 +343,34 @@ pub fn fs_with(dir: &std::path::Path, all_variants: bool) -> Family {
 
 /// `with_generated` = false leaves the generated*.txt seeds out altogether (used by the 4-fold lock-step quick run).
 pub fn fs_sel(dir: &std::path::Path, all_variants: bool, with_generated: bool) -> Family {
+    fs_variants(dir, 4, if !with_generated { 0 } else if all_variants { 4 } else { 1 })
+}
+
+/// `hv` / `gv`: number of symmetry variants (1 = as written, 4 = + mirrored, colour-swapped, both) used for the
+/// hand-made (incl. max-mobility) and for the generated seeds; 0 leaves that group out.
+pub fn fs_variants(dir: &std::path::Path, hv: u64, gv: u64) -> Family {
+    fs_impl(dir, hv, gv, None)
+}
+
+/// Only the seeds of the named files, `hv` variants each.
+pub fn fs_files(dir: &std::path::Path, files: &[&str], hv: u64) -> Family {
+    fs_impl(dir, hv, hv, Some(files.iter().map(|s| s.to_string()).collect()))
+}
+
+fn fs_impl(dir: &std::path::Path, hv: u64, gv: u64, only: Option<Vec<String>>) -> Family {
+    let all_variants = gv == 4;
+    let with_generated = gv > 0;
     let mut boards: Vec<(rm::Board, String)> = Vec::new();
     let mut files: Vec<_> = std::fs::read_dir(dir).map(|d| d.filter_map(|e| e.ok()).map(|e| e.path()).collect::<Vec<_>>()).unwrap_or_default();
     files.sort();
     for f in files {
         if f.extension().map_or(true, |e| e != "txt") {
             continue;
+        }
+        if let Some(o) = &only {
+            if !o.iter().any(|n| f.file_name().map_or(false, |x| x.to_string_lossy() == *n)) {
+                continue;
+            }
         }
         let text = std::fs::read_to_string(&f).unwrap();
         // several diagrams per file, separated by lines starting with '#'
@@ -354,17 +408,14 @@ pub fn fs_sel(dir: &std::path::Path, all_variants: bool, with_generated: bool) -
     // expand to (board index, variant) pairs
     let mut items: Vec<(usize, u64)> = vec![];
     for (i, (_, name)) in boards.iter().enumerate() {
-        if !with_generated && name.starts_with("generated") {
-            continue;
-        }
-        let nvar = if all_variants || !name.starts_with("generated") { 4 } else { 1 };
+        let nvar = if name.starts_with("generated") { gv } else { hv };
         for v in 0..nvar {
             items.push((i, v));
         }
     }
     let n = items.len() as u64 * 2;
     Family {
-        name: format!("FS ({} curated full-board seeds{}{}, x 2 sides = {} roots; odd roots parsed with from_str)", boards.len(), if with_generated { "" } else { " (generated ones left out)" }, if all_variants { " x (as written, mirrored, colour-swapped, both)" } else { ": hand-made ones x (as written, mirrored, colour-swapped, both), generated ones as written" }, n),
+        name: format!("FS ({} curated full-board seeds{}{}{}, x 2 sides = {} roots; odd roots parsed with from_str)", boards.len(), match &only { Some(o) => format!(" from {}", o.join(" + ")), None => String::new() }, if with_generated { "" } else { " (generated ones left out)" }, if hv == 1 { " as written (the three images are the lock-step partners)" } else if all_variants { " x (as written, mirrored, colour-swapped, both)" } else { ": hand-made ones x (as written, mirrored, colour-swapped, both), generated ones as written" }, n),
         n,
         how: 2,
         setups: None,
